@@ -165,6 +165,8 @@ def project(raw_events, scenario, bound=None):
             o["e"] = "InitCall"
         elif kind == "Exec":
             o.update(e="Exec", base=ev["base"], gen=ev["gen"], pk=ev["kind"], err=ev.get("err", ""))
+        elif kind == "NextCall" and ev.get("abortAfter") is not None:
+            o.update(e="Call", cid=ev["seq"], who="rt", api="next", gen=ev.get("gen", 0))
         elif kind in CALLS:
             o.update(e="Call", cid=ev["seq"], who=who_of(ev.get("who", ev["actor"])), api=CALLS[kind], gen=ev.get("gen", 0))
             if kind in ("RespCall", "ErrCall"):
@@ -225,6 +227,8 @@ def project(raw_events, scenario, bound=None):
             if ev.get("cause") == "kill":
                 continue        # the effect of the Kill request that precedes it
             o.update(e="ProcExit", base=ev["base"], gen=ev["gen"], pk=ev["kind"], cause=ev.get("cause", ""))
+        elif kind == "ExitSend":
+            o.update(e="ExitSend", base=ev["base"], gen=ev["gen"], pk=ev["kind"])
         elif kind == "ExitDelivered":
             # recorded after the watcher took the event, possibly later than the watcher's first reactions:
             # the delivery is an internal step of the specification
@@ -248,8 +252,12 @@ def project(raw_events, scenario, bound=None):
                          inv=reqk.get(ev.get("reqid", ""), 0))
             else:
                 continue
+        elif kind == "NoOutcome":
+            # the driver gave up waiting for an invocation's outcome (bound: timeout + reset allowance + grace + slack):
+            # no action of the specification corresponds to it
+            o.update(e="NoOutcome")
         elif kind in ("ResetCall", "ResetRet", "ShutdownCall", "ShutdownRet", "RestoreCall", "RestoreRet"):
-            o.update(e=kind, reason=ev.get("reason", ""), err=ev.get("err", ""))
+            o.update(e=kind, reason=ev.get("reason", ""), err=ev.get("err", ""), timeoutMs=ev.get("timeoutMs", 0))
         else:
             continue
         if bound is not None and o["e"] not in bound:
